@@ -552,5 +552,7 @@ func init() {
 	p17 := p
 	p17.name = "store"
 	p17.pPublish = 0.15
+	p17.pDenyLog = 0.3
+	p17.pShareIdent = 0.6
 	register("C17", runLogProp(logRunCfg{prop: "C17", profile: p17, nQuick: 150, nThorough: 3000, perShard: 12}))
 }
